@@ -45,9 +45,84 @@ NARROW = "tx3_resolver::inputs::narrow::"
 SS = "tx3_resolver::inputs::narrow::SearchSpace"
 
 
+_KEEP_SO = []
+
+
+def _live_const_enum(F, g):
+    """blocks of g that stay reachable when every `match` on a value that is a unit variant built in g itself (an operation
+    selector handed to an inlined helper: `combine_sets(&l, &r, SetOp::Intersection)`) takes only that variant's arm"""
+    du = mir.DefUse(g)
+    decided = {}
+    for bi, b in enumerate(g["blocks"]):
+        t = b["t"]
+        if b["cleanup"] or t["k"] != "switch":
+            continue
+        pl = mir.op_place(t["discr"])
+        src = None
+        for st in b["s"]:
+            if pl is not None and st["lhs"]["l"] == pl["l"] and st["rv"]["k"] == "discr" and not st["rv"]["pl"]["p"]:
+                src = st["rv"]["pl"]["l"]
+        hops = 0
+        while src is not None and hops < 6:
+            hops += 1
+            ds = du.defs.get(src, [])
+            if len(ds) != 1 or ds[0][0] != "stmt":
+                src = None
+                break
+            rv = ds[0][3]["rv"]
+            if rv["k"] == "use" and mir.op_place(rv["op"]) is not None and not mir.op_place(rv["op"])["p"]:
+                src = mir.op_place(rv["op"])["l"]
+                continue
+            if rv["k"] == "agg" and rv.get("variant") and not rv.get("ops") and rv.get("adt") in F.adts:
+                dv = [v["discr"] for v in F.adt(rv["adt"])["variants"] if v["name"] == rv["variant"]]
+                if dv:
+                    tm = dict((v, tb) for v, tb in t["targets"])
+                    decided[bi] = tm.get(dv[0], t["otherwise"])
+            break
+    seen, st = {0}, [0]
+    while st:
+        x = st.pop()
+        nxt = [decided[x]] if x in decided else mir.block_succs(g["blocks"][x])
+        for y in nxt:
+            if y not in seen:
+                seen.add(y)
+                st.append(y)
+    return seen
+
+
 def _set_ops(F, f, depth=0):
-    """set-combining std operations a function (and the workspace functions it calls, 2 levels) performs"""
+    """set-combining std operations a function (and the workspace functions it calls, 2 levels) performs; small helpers of
+    the module are read inlined, an operation selector passed to them as a constant decides which of their arms counts"""
     ops = set()
+    if depth == 0 and not f.get("owner"):
+        def want(t, callee, me=f["path"]):
+            return callee["path"].startswith(NARROW) and callee["path"] != me and not callee.get("impl_trait") and len(callee["blocks"]) <= 80
+        _KEEP_SO.append(want)
+        try:
+            gi = mir.inline_calls(F, f, want=want, depth=2)
+        except Exception:
+            gi = None
+        if gi is not None and gi.get("inlined"):
+            live = _live_const_enum(F, gi)
+            left = False
+            for bi, t in mir.calls(gi):
+                if bi not in live:
+                    continue
+                c = t.get("callee") or ""
+                n = c.split("::")[-1]
+                if "HashSet" in c or "BTreeSet" in c:
+                    if n in ("intersection", "retain"):
+                        ops.add("meet")
+                    if n in ("union", "extend", "insert"):
+                        ops.add("join")
+                r = t.get("resolved") or c
+                if r in F.fns and r.startswith(NARROW) and r != f["path"]:
+                    left = True     # a callee that was not inlined: judged the old way below
+            if not left:
+                for g in with_closures(F, f)[1:]:
+                    ops |= _set_ops(F, g, depth + 1)
+                return ops
+            ops = set()
     for g in with_closures(F, f):
         for bi, t in mir.calls(g):
             c = t.get("callee") or ""
@@ -465,7 +540,7 @@ def s_predicate(F, res, label=""):
         # with the selection helpers of the crate (`take_if_useful`, `trim_excess`, ..) inlined
         fi = mir.inline_calls(F, f, want=c04._HELPERS_ALL, depth=2)
         names = set()
-        for g in [fi] + with_closures(F, f)[1:]:
+        for g in [fi] + with_closures(F, fi)[1:] + with_closures(F, f)[1:]:
             for bi, t in mir.calls(g):
                 c = t.get("callee") or ""
                 if c.startswith("tx3_tir::model::assets::CanonicalAssets::"):
@@ -499,7 +574,7 @@ def s_predicate(F, res, label=""):
             cfg = mir.CFG(f)
             # the non-empty return must be on the is_empty_or_negative() true side: the `return HashSet::new()` must be
             # on the false side of a test of is_empty_or_negative
-            tests = [bi for bi, t in mir.calls(f) if (t.get("callee") or "").endswith("CanonicalAssets::is_empty_or_negative")]
+            tests = [bi for bi, t in mir.calls(fi) if (t.get("callee") or "").endswith("CanonicalAssets::is_empty_or_negative")]
             if "is_empty_or_negative" in names and "contains_some" in names and tests:
                 res.add([ok("S-PREDICATE", key, where(f), "accumulates while contains_some(pending); gives up unless pending.is_empty_or_negative()")])
             else:
